@@ -190,7 +190,7 @@ def shape_workers_rel(cls, nworkers, common):
 
 def shapes(tier):
     from checks import c03 as _c03
-    out = _c03.monotone_shapes(PROP, tier, resource_rules=True)
+    out = _c03.monotone_shapes(PROP, tier, resource_rules=True) + _c03.default_shapes(PROP)
     thorough = tier == "thorough"
     for ename in ("ResourceUnavailable", "WorkLoad", "ResourcePeriodicallyUnavailable", "ResourceInterrupted"):
         for how in ("worker", "cumulative"):
